@@ -193,6 +193,17 @@ def make_driver(cfg):
 
 # ----------------------------------------------------------------------------- trace -> model of the files on disk
 
+def _basename_is_tmp(name):
+    """does the last path component of an abstract file name start with 'tmp.'?"""
+    lits = [p_ for p_ in name.parts if isinstance(p_, str) and '/' in p_]
+    return bool(lits) and lits[-1].rsplit('/', 1)[1].startswith('tmp.')
+
+
+def _same_type(a, b):
+    if isinstance(a, int) and isinstance(b, int): return a == b
+    return str(a) == str(b)
+
+
 def build_files(ex):
     """rebuild, from the event trace of one path, the files the writer created: returns (files, problems)
     file = dict(name, fid, ev, window, rf(did,dims0,max0,extent,type,dcpl), writes[], index(did, rows[]), attrs{}, fclose_ev, rename_ev,
@@ -243,10 +254,12 @@ def build_files(ex):
                 ds['rows'] += rows
                 ds.setdefault('row_ev', []).extend([idx] * cnt)
         elif k == 'H5Awrite':
-            _, loc, name, val, mt = e
+            _, loc, name, val, mt, ct = e
             tgt = by_did.get(loc, (None, None))[0] or by_fid.get(loc)
             if tgt is not None and name is not None and name.is_concrete():
                 tgt['attrs'][name.text()] = val
+                # stored with the type it is handed over in (a narrower stored type silently truncates large values)
+                if not _same_type(mt, ct): tgt.setdefault('attr_type_mismatch', []).append(name.text())
                 if loc in by_fid: tgt['is_props'] = True
         elif k in ('H5Dclose',):
             if e[1] in by_did: by_did[e[1]][0]['dclose'][e[1]] = (idx, e[2])
@@ -261,7 +274,7 @@ def build_files(ex):
             _, a, f = e
             hit = [fr for fr in files if envstubs.strid(fr['name']) == envstubs.strid(a)]
             if hit: hit[-1]['removed'] = idx
-            elif any(isinstance(p_, str) and 'tmp.' in p_ for p_ in a.parts): pass      # clearing a stale tmp. file (nobody reads those) is allowed
+            elif _basename_is_tmp(a): pass      # clearing a stale tmp. file (nobody reads those) is allowed
             else: problems.append(('remove of a file this writer did not create', idx, a))
     return files, problems
 
@@ -490,7 +503,7 @@ def check_path(ex, cfg, status, ret, agg):
                 agg.note('a file is renamed tmp.X -> X only after its datasets and the file are closed, exactly once, to the name of its window, '
                          'and is never touched again', False, path_model(ex))
         # attributes
-        names_ok = sorted(f['attrs']) == sorted(ATTR_NAMES_FILE)
+        names_ok = sorted(f['attrs']) == sorted(ATTR_NAMES_FILE) and not f.get('attr_type_mismatch')
         vals = []
         if names_ok:
             a = f['attrs']
@@ -500,7 +513,7 @@ def check_path(ex, cfg, status, ret, agg):
             vals.append(z3.BoolVal(isinstance(a['uuid_str'], SymStr) and a['uuid_str'].norm().text() == 'UUID'))
             for nm in ('epoch', 'digital_rf_time_description', 'digital_rf_version'):
                 vals.append(z3.BoolVal(isinstance(a[nm], SymStr) and a[nm].is_concrete() and len(a[nm].text()) > 0))
-        check_claim(ex, agg, 'each data file carries exactly the 19 documented attributes, channel parameters copied from the writer object',
+        check_claim(ex, agg, 'each data file carries exactly the 19 documented attributes, channel parameters copied from the writer object, each stored with the type it is written with',
                     z3.And(z3.BoolVal(names_ok), *vals))
     # sequence numbers increase with file time within the session
     seqs = [(f['attrs'].get('sequence_num'), f['window']) for f in data_files if 'sequence_num' in f['attrs'] and f['window'] is not None]
